@@ -394,6 +394,123 @@ func initLib() {
 		return v
 	}
 
+	// ---- decimal digit strings (C18 formatting): big.Int.String, strings.Repeat("0", k), fmt.Sprintf with a
+	// format made of %s verbs and literal text. dv is the rational value a digit string denotes.
+	strCat := func(vc *VC, st *State, x, y Term) Term {
+		r := vc.define("strcat", mk(fmt.Sprintf("(str-cat %s %s)", x.S, y.S), sortStr))
+		vc.assume(st, tEq(mk("(str-len "+r.S+")", vc.idxSort()), vc.idxAdd(mk("(str-len "+x.S+")", vc.idxSort()), mk("(str-len "+y.S+")", vc.idxSort()))))
+		return r
+	}
+	libTable[bigPfx+"String"] = func(vc *VC, fr *Frame, st *State, a []Val, at []types.Type, rt types.Type, pos token.Pos) Val {
+		vc.usedLib("big.Int.String")
+		vc.nilChecks(fr, st, pos, a[0])
+		vc.needStr, vc.needDigits = true, true
+		x := vc.ld(st, a[0])
+		ax := mk(fmt.Sprintf("(ite (>= %s 0) %s (- %s))", x.S, x.S, x.S), sortInt)
+		d := vc.define("decstr", mk("(decstr "+ax.S+")", sortStr))
+		neg := vc.strLit("-")
+		r := vc.define("bigstr", tIte(mk("(< "+x.S+" 0)", sortBool), strCat(vc, st, neg, d), d))
+		return Val{T: r}
+	}
+	libTable["strings.Repeat"] = func(vc *VC, fr *Frame, st *State, a []Val, at []types.Type, rt types.Type, pos token.Pos) Val {
+		vc.usedLib("strings.Repeat")
+		vc.needStr = true
+		// only the form Repeat("0", k) has a model; anything else is an arbitrary string
+		if a[0].T.S == vc.strLit("0").S {
+			vc.needDigits = true
+			k := a[1].T
+			vc.oblige(st, fr, "safe.repeat", "", vc.idxLe(vc.idxLit(0), k), "strings.Repeat count is not negative", pos)
+			ki := k
+			if vc.mode == ModeBV {
+				ki = mk(fmt.Sprintf("(ite (bvslt %s (_ bv0 64)) (- (bv2nat (bvneg %s))) (bv2nat %s))", k.S, k.S, k.S), sortInt)
+			}
+			r := vc.define("zeros", mk("(zeros "+ki.S+")", sortStr))
+			vc.assume(st, tEq(mk("(str-len "+r.S+")", vc.idxSort()), k))
+			return Val{T: r}
+		}
+		return vc.freshVal(st, "repeat", rt)
+	}
+	libTable["fmt.Sprintf"] = func(vc *VC, fr *Frame, st *State, a []Val, at []types.Type, rt types.Type, pos token.Pos) Val {
+		vc.needStr = true
+		// the format must be a literal made of %s verbs and plain text, the arguments strings
+		format, ok := "", false
+		for lit, t := range vc.strLits {
+			if t.S == a[0].T.S {
+				format, ok = lit, true
+			}
+		}
+		fresh := func() Val {
+			v := vc.freshVal(st, "ef!Sprintf", rt)
+			if ok && len(format) > 0 && format[0] != '%' {
+				vc.assume(st, tNot(tEq(v.T, vc.strLit(""))))
+			}
+			vc.effectFree["fmt.Sprintf"]++
+			return v
+		}
+		if !ok || len(a) < 2 || a[1].T.T == nil || a[1].T.T.K != SSlice {
+			return fresh()
+		}
+		var parts []string // literal text and "%s" markers
+		for i := 0; i < len(format); {
+			if format[i] == '%' {
+				if i+1 < len(format) && format[i+1] == 's' {
+					parts = append(parts, "%s")
+					i += 2
+					continue
+				}
+				return fresh()
+			}
+			j := i
+			for j < len(format) && format[j] != '%' {
+				j++
+			}
+			parts = append(parts, format[i:j])
+			i = j
+		}
+		var ifaceT types.Type = types.NewInterfaceType(nil, nil)
+		if sl, ok := at[1].Underlying().(*types.Slice); ok {
+			ifaceT = sl.Elem()
+		}
+		arr := tSelect(vc.heapGet(st.heap, vc.arrComp(ifaceT)), mk("(sl-ref "+a[1].T.S+")", sortRef))
+		strBox := vc.heapGet(st.heap, vc.boxComp(types.Typ[types.String]))
+		sid := vc.typeID(types.Typ[types.String])
+		var pieces []Term
+		argi := 0
+		allStr := tTrue
+		for _, p := range parts {
+			var piece Term
+			if p == "%s" {
+				el := tSelect(arr, vc.idxAdd(mk("(sl-off "+a[1].T.S+")", vc.idxSort()), vc.idxLit(int64(argi))))
+				el.T = sortIface
+				allStr = tAnd(allStr, tEq(mk("(ityp "+el.S+")", sortInt), mk(fmt.Sprint(sid), sortInt)))
+				piece = tSelect(strBox, mk("(iref "+el.S+")", sortRef))
+				piece.T = sortStr
+				piece = vc.define("sarg", piece)
+				argi++
+			} else {
+				piece = vc.strLit(p)
+			}
+			pieces = append(pieces, piece)
+		}
+		// right-associated: a ++ (b ++ (c ++ d))
+		var acc Term
+		have := false
+		for i := len(pieces) - 1; i >= 0; i-- {
+			if !have {
+				acc, have = pieces[i], true
+			} else {
+				acc = strCat(vc, st, pieces[i], acc)
+			}
+		}
+		if !have {
+			return fresh()
+		}
+		vc.usedLib("fmt.Sprintf (%s/literal formats: concatenation)")
+		// if some argument is not a string the result is arbitrary
+		f := vc.freshVal(st, "sprintf", rt)
+		return Val{T: vc.define("sprintf", tIte(allStr, acc, f.T))}
+	}
+
 	// ---- bytes.Compare / bytes.Equal: equality of contents is equality of the abstract byte strings
 	bytesOfSlice := func(vc *VC, st *State, s Term) Term {
 		arr := tSelect(vc.heapGet(st.heap, vc.arrComp(types.Typ[types.Uint8])), mk("(sl-ref "+s.S+")", sortRef))
@@ -922,8 +1039,68 @@ func (vc *VC) preludeText() string {
 	return b.String()
 }
 
+// digitAxioms: the theory of decimal digit strings used by the formatting models (big.Int.String, strings.Repeat of
+// "0", %s-only Sprintf). decstr n is the numeral of n >= 0, zeros k is k zero digits, dv the rational value of a
+// numeral with optional sign and decimal point, isdig: digits only. Emitted after the string literals are declared.
+func (vc *VC) digitAxioms() string {
+	if !vc.needDigits {
+		return ""
+	}
+	var b strings.Builder
+	b.WriteString("(declare-fun dv (Str) Real)\n(declare-fun isdig (Str) Bool)\n(declare-fun decstr (Int) Str)\n(declare-fun zeros (Int) Str)\n(declare-fun dpow10u (Int) Int)\n")
+	b.WriteString("(define-fun dpow10 ((d Int)) Int ")
+	p := "1"
+	for k := 0; k <= 20; k++ {
+		fmt.Fprintf(&b, "(ite (= d %d) %s ", k, p)
+		p += "0"
+	}
+	b.WriteString("(dpow10u d)" + strings.Repeat(")", 21) + ")\n")
+	lenOf := func(s string) string {
+		if vc.mode == ModeBV {
+			return "(bv2nat (str-len " + s + "))"
+		}
+		return "(str-len " + s + ")"
+	}
+	kInt := "k"
+	if vc.mode == ModeBV {
+		kInt = "(bv2nat k)"
+	}
+	zero, dot, minus, empty := vc.strLits["0"], vc.strLits["."], vc.strLits["-"], vc.strLits[""]
+	b.WriteString("(assert (forall ((n Int)) (! (=> (>= n 0) (and (= (dv (decstr n)) (to_real n)) (isdig (decstr n)))) :pattern ((decstr n)))))\n")
+	b.WriteString("(assert (forall ((k Int)) (! (and (isdig (zeros k)) (= (dv (zeros k)) 0.0)) :pattern ((zeros k)))))\n")
+	// a numeral has at least one digit; lengths are Go string lengths
+	if vc.mode == ModeBV {
+		b.WriteString("(assert (forall ((n Int)) (! (and (bvuge (str-len (decstr n)) (_ bv1 64)) (bvult (str-len (decstr n)) #x4000000000000000)) :pattern ((decstr n)))))\n")
+	} else {
+		b.WriteString("(assert (forall ((n Int)) (! (and (<= 1 (str-len (decstr n))) (< (str-len (decstr n)) 4611686018427387904)) :pattern ((decstr n)))))\n")
+	}
+	if zero.S != "" {
+		fmt.Fprintf(&b, "(assert (and (isdig %s) (= (dv %s) 0.0)))\n", zero.S, zero.S)
+	}
+	// leading zeros do not change the value
+	b.WriteString("(assert (forall ((k Int) (s Str)) (! (=> (isdig s) (and (= (dv (str-cat (zeros k) s)) (dv s)) (isdig (str-cat (zeros k) s)))) :pattern ((str-cat (zeros k) s)))))\n")
+	// splitting a numeral at k: value(prefix) * 10^(length of the suffix) + value(suffix) = value
+	z := vc.idxLit(0).S
+	fmt.Fprintf(&b, "(assert (forall ((s Str) (k %s)) (! (=> (isdig s) (and (isdig (str-sub s %s k)) (isdig (str-sub s k (str-len s))) (= (+ (* (dv (str-sub s %s k)) (to_real (dpow10 (- %s %s)))) (dv (str-sub s k (str-len s)))) (dv s)))) :pattern ((str-sub s %s k)))))\n",
+		vc.idxSort().Name, z, z, lenOf("s"), kInt, z)
+	// the whole string as a substring of itself
+	fmt.Fprintf(&b, "(assert (forall ((s Str) (k %s)) (! (=> (= k (str-len s)) (= (str-sub s %s k) s)) :pattern ((str-sub s %s k)))))\n", vc.idxSort().Name, z, z)
+	if dot.S != "" {
+		// integer part, point, fraction
+		fmt.Fprintf(&b, "(assert (forall ((a Str) (f Str)) (! (=> (and (isdig a) (isdig f)) (= (dv (str-cat a (str-cat %s f))) (+ (dv a) (/ (dv f) (to_real (dpow10 %s)))))) :pattern ((str-cat a (str-cat %s f))))))\n", dot.S, lenOf("f"), dot.S)
+	}
+	if minus.S != "" {
+		fmt.Fprintf(&b, "(assert (forall ((s Str)) (! (= (dv (str-cat %s s)) (- (dv s))) :pattern ((str-cat %s s)))))\n", minus.S, minus.S)
+	}
+	if empty.S != "" {
+		fmt.Fprintf(&b, "(assert (forall ((s Str)) (! (= (str-cat %s s) s) :pattern ((str-cat %s s)))))\n", empty.S, empty.S)
+	}
+	return b.String()
+}
+
 func (vc *VC) libPrelude() string {
 	var b strings.Builder
+	b.WriteString(vc.digitAxioms())
 	b.WriteString("(declare-fun exp256 ((_ BitVec 256) (_ BitVec 256)) (_ BitVec 256))\n")
 	if vc.needBitLen {
 		// bit length of a 256-bit word as ite chain over the leading byte position and its leading bit
